@@ -1193,47 +1193,81 @@ def selftest():
     # not-a-knot knot vector, p=3, level 2 on [0,1]: -3h..0, (skip 1/4), 1/2, (skip 3/4), 1..1+3h
     kn = nak_knots(0.0, 1.0, 2, 3, nak_level_coordinates(0.0, 1.0, 2, None))
     assert np.allclose(kn, [-0.75, -0.5, -0.25, 0.0, 0.5, 1.0, 1.25, 1.5, 1.75]), kn
-    # closed form through the library: GlobalLagrangeGrid p=1 on [0,.5,1] = hat basis -> surpluses v0, v1-(v0+v2)/2, v2
-    case = dict(kind="global", family="lagrange", p=1, mode="boundary", a=[0.0], len=[1.0], trees=[[[0, 0.5]]],
-                out=1, vscale=1.0, rng=5)
-    cx = _Ctx(case)
-    cx.setup()
-    from sparseSpACE.Function import FunctionCustom
-    cx.integrate(FunctionCustom(_Table({(0.0,): [1.0], (0.5,): [2.0], (1.0,): [1.0]}), output_dim=1))
-    assert np.allclose(cx.surplusses(), [[1.0, 1.0, 1.0]], atol=1e-15), cx.surplusses()
-    for c, run in ((case, run_roundtrip_global), (local_fixed()[0], run_roundtrip_local),
-                   (dict(kind="local", family="lagrange", p=2, mode="boundary", a=[-1.0], len=[3.0], paths=[[1]],
-                         lv=[1], rng=1), run_polynomials),
-                   (dict(kind="bspline", p=3, x0=0.0, incs=[1.0] * 5, index=0, ia=0.0, ib=1.0, rng=1), run_basis),
-                   (dict(kind="lagrange_restricted", p=2, x0=0.0, incs=[0.5, 0.5], index=1, ia=0.0, ib=1.0, rng=1), run_basis)):
-        o = run(c)
-        assert not o.violations, o.violations
-    # the oracles reject corrupted objects
+    # the oracles reject corrupted objects (nothing of the library is involved)
     o = Outcome()
     compare_nodal(o, "t/nodal", np.array([[1.0, 2.0 + 1e-6]]), np.array([[1.0, 2.0]]), tol_cond(10.0), 2.0, "corrupted")
     assert o.violations, "perturbed nodal value not rejected"
-    import sparseSpACE.BasisFunctions as B
+    o = Outcome()
+    compare_nodal(o, "t/nodal", np.array([[1.0, 2.0 + 1e-12]]), np.array([[1.0, 2.0]]), tol_cond(10.0), 2.0, "rounding")
+    assert not o.violations
 
-    class Bad(B.BSpline):                       # derivative off by 1 %, integral off by 1e-6
+    class Sine(object):                         # analytic stand-in for a basis object
+        def __init__(self, c1=1.0, c0=0.0):
+            self.c1, self.c0 = c1, c0
+
+        def __call__(self, x):
+            return math.sin(x)
+
         def get_first_derivative(self, x):
-            return 1.01 * super().get_first_derivative(x)
+            return self.c1 * math.cos(x)
+
+        def get_second_derivative(self, x):
+            return -math.sin(x)
 
         def get_integral(self, a, b, c, w):
-            return super().get_integral(a, b, c, w) + 1e-6
+            return math.cos(a) - math.cos(b) + self.c0
 
-    kn = [0.0, 1.0, 2.0, 3.0, 4.0]
+    info = dict(knots=[0.0, 1.0, 2.0, 3.0], lo=0.0, hi=3.0, ia=0.0, ib=3.0, ra=0.0, rb=3.0)
     o = Outcome()
-    check_basis_object(o, "t", "bspline", Bad(3, 0, np.array(kn)), dict(knots=kn, lo=0.0, hi=4.0, ia=0.0, ib=4.0, ra=0.0, rb=4.0),
-                       3, np.random.default_rng(0))
+    check_basis_object(o, "t", "sine", Sine(), dict(info), 3, np.random.default_rng(0))
+    assert not o.violations, o.violations
+    o = Outcome()
+    check_basis_object(o, "t", "sine", Sine(1.01, 1e-6), dict(info), 3, np.random.default_rng(0))
     sigs = [s for s, _ in o.violations]
-    assert "t/derivative1/bspline" in sigs and "t/integral/bspline" in sigs and "t/derivative2/bspline" not in sigs, sigs
-    # a grid whose hierarchisation is wrong is rejected by the round trip (surpluses of another table)
-    cx2 = _Ctx(case)
-    cx2.setup()
-    cx2.integrate(FunctionCustom(_Table({(0.0,): [1.0], (0.5,): [2.5], (1.0,): [1.0]}), output_dim=1))
-    o = Outcome()
-    compare_nodal(o, "t/nodal", cx2.interpolate([(0.0,), (0.5,), (1.0,)]), np.array([[1.0], [2.0], [1.0]]), tol_cond(2.0), 2.0, "x")
-    assert o.violations
+    assert "t/derivative1/sine" in sigs and "t/integral/sine" in sigs and "t/derivative2/sine" not in sigs, sigs
+    # closed forms through the library.  A library exception or a violation here is NOT a self-test failure (the run
+    # reports it as a violation of the property); only a wrong verdict of the oracle on a correct library would be.
+    _selftest_library()
+
+
+def _selftest_library():
+    import numpy as np
+    from vlib.core import classify_exception
+    try:
+        from sparseSpACE.Function import FunctionCustom
+        # GlobalLagrangeGrid p=1 on [0,.5,1] = hat basis -> surpluses v0, v1-(v0+v2)/2, v2
+        case = dict(kind="global", family="lagrange", p=1, mode="boundary", a=[0.0], len=[1.0], trees=[[[0, 0.5]]],
+                    out=1, vscale=1.0, rng=5)
+        cx = _Ctx(case)
+        cx.setup()
+        cx.integrate(FunctionCustom(_Table({(0.0,): [1.0], (0.5,): [2.0], (1.0,): [1.0]}), output_dim=1))
+        lib_ok = (np.allclose(cx.surplusses(), [[1.0, 1.0, 1.0]], atol=1e-15)
+                  and np.allclose(cx.interpolate([(0.0,), (0.25,), (0.5,), (1.0,)]), [[1.0], [1.5], [2.0], [1.0]], atol=1e-15)
+                  and np.allclose(cx.weights(0), [0.5, 0.5, 0.5], atol=1e-15))
+        runs = []
+        for c, run in ((case, run_roundtrip_global), (local_fixed()[0], run_roundtrip_local),
+                       (dict(kind="local", family="lagrange", p=2, mode="boundary", a=[-1.0], len=[3.0], paths=[[1]],
+                             lv=[1], rng=1), run_polynomials),
+                       (dict(kind="bspline", p=3, x0=0.0, incs=[1.0] * 5, index=0, ia=0.0, ib=1.0, rng=1), run_basis),
+                       (dict(kind="lagrange_restricted", p=2, x0=0.0, incs=[0.5, 0.5], index=1, ia=0.0, ib=1.0, rng=1),
+                        run_basis)):
+            runs.append(run(c))
+        # a grid that hierarchised another table is rejected by the round-trip comparison
+        cx2 = _Ctx(case)
+        cx2.setup()
+        cx2.integrate(FunctionCustom(_Table({(0.0,): [1.0], (0.5,): [2.5], (1.0,): [1.0]}), output_dim=1))
+        o = Outcome()
+        compare_nodal(o, "t/nodal", cx2.interpolate([(0.0,), (0.5,), (1.0,)]), np.array([[1.0], [2.0], [1.0]]),
+                      tol_cond(2.0), 2.0, "x")
+        assert o.violations, "round trip of a different table not rejected"
+    except Exception as e:  # noqa - classified: only harness exceptions (incl. the asserts above) fail the self test
+        if classify_exception(e)[0] == "lib":
+            return
+        raise
+    if lib_ok:
+        # the library gets the hat-basis closed form right (surpluses, interpolant, basis integrals): the round-trip
+        # check must accept exactly this case
+        assert not runs[0].violations, runs[0].violations
 
 
 SUBS = [
